@@ -254,6 +254,30 @@ def f(a: INT64, lim: INT64) -> INT64:
     return x
 INPUTS = [dict(a=np.array(a, dtype=np.int64), lim=np.array(l, dtype=np.int64)) for a, l in ((0, 100), (0, 4), (20, 100), (9, 0))]
 """,
+    # a chain of script functions three deep whose innermost call sits inside an if of the middle function: every called
+    # function has to be collected into the model
+    "subfunction_chain_nested_call": """
+@script(default_opset=op)
+def hh(u: INT64) -> INT64:
+    return u * 2 + 1
+
+@script(default_opset=op)
+def gg(u: INT64) -> INT64:
+    r = u
+    if u > 0:
+        r = hh(u)
+    else:
+        r = u - 1
+    return r
+
+@script(default_opset=op)
+def f(a: INT64, n: INT64) -> INT64:
+    x = a
+    for i in range(n):
+        x = gg(x) + 1
+    return x
+INPUTS = [dict(a=np.array(a, dtype=np.int64), n=np.array(n, dtype=np.int64)) for a in (-2, 3) for n in (0, 2)]
+""",
     # a variable defined only inside the loop body and used after it must be refused or right (never stale)
     "if_in_loop_one_branch": """
 @script(default_opset=op)
